@@ -7,6 +7,7 @@ from sa.rules import dispatch as D
 from sa.rules import pipeline as P
 from sa.rules import traversal as T
 from sa.rules import validators as V
+from sa.rules import schematype as ST
 
 
 def main(tier):
@@ -44,4 +45,6 @@ def main(tier):
     chk.run("R-ONEOFGUARD", RR.oneofguard, cx.repo, floor=3, modules=("compiler/front_end/type_check.py",))
     chk.run("R-CANONNAME", RR.canonname, cx.repo, floor=1)
     chk.run("R-PRECOND", FLW.precond, cx.repo, floor=3)
+    # "rejected with an error that points into the definition containing the offending construct"
+    chk.run("R-FOREIGNFILE", ST.foreignfile, cx.repo, floor=8)
     return chk.finish()
